@@ -1085,6 +1085,8 @@ class Exec:
                 if rest.startswith(pre):
                     rest = rest[len(pre):]
                     break
+            if rest.startswith("(fake) "):        # `&raw const (fake) (*_x)`: address taken only for its metadata (slice length)
+                rest = rest[len("(fake) "):]
             pl = parse_place(rest)
             return self.make_ref(fr, pl, dty)
         m = re.match(r"^([A-Za-z]+)\((.*)\)$", r)
@@ -1144,6 +1146,9 @@ class Exec:
                     return self.ctx.ref_to(val, dty)
                 else:
                     pass  # Box deref: stay
+            elif proj[i][0] == "index" and frame is not fr and isinstance(fr.locals.get(proj[i][1]), IntV) and isinstance(fr.locals[proj[i][1]].t, int):
+                # `&(*_x)[_i]` through a reference: the index local lives in THIS frame, the target in another one -> resolve a concrete index now
+                acc.append(("cindex", fr.locals[proj[i][1]].t))
             else:
                 acc.append(proj[i])
             i += 1
